@@ -281,6 +281,22 @@ func gen(g *core.G) {
 		g.Emit("inst " + gc.A.String() + " " + lg.MutateVal(gc.V).String())
 	}
 
+	// ---- (2'') types given as TEXT in every parameter form of the creators (Integer[3], Enum['a','B',false], Tuple[String,1],
+	// String[Integer[1,3]], Optional['x'] ...): the instance relation of what the text denotes -----------------------------------
+	for _, sc := range lg.Spellings(px.CurrentContext(), 500*g.Scale) {
+		tx := lat.Txt(sc.Text).String()
+		w, ok := lg.Witness(sc.Ty)
+		if !ok {
+			w = lg.Val(2)
+		}
+		g.Emit("inst " + tx + " " + w.String())
+		g.Emit("inst " + tx + " " + lg.MutateVal(w).String())
+		for _, v := range boundaryVals(lg, sc.Ty) {
+			g.Emit("inst " + tx + " " + v.String())
+		}
+		g.Emit("inst " + tx + " " + lat.VS("").String())
+	}
+
 	// ---- (3) malformed stream (implementation only) ----------------------------------------------------------------
 	odd := []string{"(int 2 1)", "(strsz 3 1)", "(arr any 5 2)", "(var str)", "(struct (x f str))", "(obj 3)", "(enum t x41)", "(pat x28)",
 		"(strsz 0 9223372036854775807)", "(tup (str) (2 1))", "(hash str any -1 1)"}
